@@ -76,9 +76,12 @@ package dkg
 //@   modifies *
 //@   assert@call Marshal[C04.pubpoly.noshare] istype(v, "blsKeyringJSON") && len(v.(blsKeyringJSON).Share) == 0
 
+//@ import airgapped "github.com/lidofinance/dc4bc/airgapped"
+//@ import client "github.com/lidofinance/dc4bc/client/types"
 //@ func LoadBLSKeyringFromBytes
 //@   safety C18
 //@   nosafety
 //@   modifies *
 //@   modifies $bufc
+//@   ensures unchanged("airgapped.Machine.dkgInstances", "map[string]*DKG", "DKG.instance", "client.Operation.DKGIdentifier")
 //@   ensures[C18.keyring.nonnil] result1 == nil ==> result0 != nil
